@@ -12,7 +12,9 @@ import itertools
 import os
 import random
 
-from gcommon import Ctx, first_error, rs_str
+from gcommon import Ctx, first_error, rs_str, miri_run_program
+import re
+from concurrent.futures import ThreadPoolExecutor
 import kv
 
 PRELUDE = r'''
@@ -183,6 +185,34 @@ def run(out, tier, seed):
                 out.fail("C15:destructure-" + f[1], "destructure!", f[2], f[3][:300], f[4][:300], "generated-program", cmd=b, source=src)
             elif f[0] == "N":
                 evals += int(f[1])
+    # the same shape programs under Miri (destructure! is ptr::read-based: a second read of a moved-out
+    # field, a missed field or a wrong offset in a packed struct is a double free / leak / unaligned
+    # or uninitialised read there). The ledger's double-free protection is irrelevant: the shapes are valid.
+    miri_evals = 0
+    if bins:
+        with ThreadPoolExecutor(max_workers=kv.NCPU) as ex:
+            mres = list(ex.map(lambda sb: miri_run_program(cx, sb[0], os.path.basename(sb[0])[:-3]), bins))
+        for (src, b), (rc, so, se) in zip(bins, mres):
+            if rc is None:
+                raise kv.Inconclusive("watchdog: Miri did not finish on %s" % src)
+            ub = re.findall(r"error: Undefined Behavior: (.*)", se or "")
+            if ub or "memory leaked" in (se or ""):
+                msg = ub[0] if ub else "memory leaked (Miri leak checker)"
+                out.fail("miri:" + msg[:110], "destructure!", "generated shape program %s under Miri" % src, msg, "no undefined behaviour, no leak", "miri-sb", cmd="cargo +nightly miri run (wrapper of %s)" % src, detail=(se or "")[-1500:], source=src)
+                continue
+            if rc != 0:
+                if "error[E" in (se or "") or "could not compile" in (se or ""):
+                    raise kv.Inconclusive("shape program does not build under Miri: %s" % first_error(se)[:300])
+                out.fail("miri:abnormal-termination", "destructure!", "generated shape program %s under Miri" % src, "rc=%s %s" % (rc, (se or "")[-300:]), "runs to completion", "miri-sb", cmd="cargo +nightly miri run (wrapper of %s)" % src, source=src)
+                continue
+            for line in so.splitlines():
+                f = line.split("\t")
+                if f[0] == "FAIL":
+                    out.fail("C15:destructure-" + f[1], "destructure!", f[2] + " (under Miri)", f[3][:300], f[4][:300], "miri-sb", cmd=src, source=src)
+                elif f[0] == "N":
+                    miri_evals += int(f[1])
+        out.engines["miri:generated-programs"] = out.engines.get("miri:generated-programs", 0) + miri_evals
+        out.evals += miri_evals
     samples = ["destructure!{%s} over ledger elements" % s[1] for s in shapes[::max(1, len(shapes) // 6)][:6]]
     out.add_counts("generated-programs", evals, "c15-shapes", len(shapes), samples,
                    rule="one evaluation = one generated destructure! shape function over ledger elements: bound variables must receive the right ids in order, elements matched by `_`/`..` must be dropped before the statement after the macro, and the conservation audit must be clean; distinct_nontrivial = number of distinct pattern shapes",
